@@ -178,3 +178,19 @@ def tree_protocol_obligations():
         _ob('cls:C19:importable-by-printed-name', bad_name, 'every class is reachable by the bare name dump prints', F),
         _ob('cls:C19:type-attribute-vs-dump', bad_type, "dump prints the type argument exactly for the classes that do not fix it as a class attribute", F),
     ]
+
+
+def leaf_dispatch_obligations():
+    """A-DISPATCH for convert_leaf (pv/obs_effects.DYNAMIC): everything the leaf tables of the parsers can construct is a
+    Leaf subclass whose __init__ is Leaf.__init__, TypedLeaf.__init__ or ErrorLeaf.__init__ (no node constructor)."""
+    bt = importlib.import_module('parso.tree')
+    pp = importlib.import_module('parso.python.parser')
+    bp = importlib.import_module('parso.parser')
+    pt = importlib.import_module('parso.python.tree')
+    cands = list(pp.Parser._leaf_map.values()) + list(getattr(pp.Parser, 'leaf_map', {}).values()) + \
+        list(getattr(bp.BaseParser, 'leaf_map', {}).values()) + [bp.BaseParser.default_leaf, pp.Parser.default_leaf,
+                                                                   pt.Operator, pt.Keyword, pt.Name]
+    ok_inits = {bt.Leaf.__init__, bt.TypedLeaf.__init__, bt.ErrorLeaf.__init__}
+    bad = [c.__name__ for c in cands if not (inspect.isclass(c) and issubclass(c, bt.Leaf) and c.__init__ in ok_inits)]
+    return [_ob('cls:leaf-dispatch', bad, '%d classes reachable from the leaf tables: all are leaves built by Leaf / TypedLeaf / '
+                'ErrorLeaf.__init__' % len(cands), ['parso.python.parser.Parser.convert_leaf', 'parso.parser.BaseParser.convert_leaf'])]
